@@ -457,6 +457,85 @@ func (s *xmlSpace) Build(d []int) *Case {
 	return &Case{Kind: k.kind, URL: docURL, CType: k.ctypes[d[5]], Body: b.String(), Hops: hc[0], MaxHops: hc[1], DC: hc[2] == 1, DAC: hc[3] == 1, Planted: planted}
 }
 
+// ---------------------------------------------------------------- documents that name their own address
+
+// selfSpace: a document whose content refers to its own address with another query string, without one, with one
+// more parameter, to a sibling file with the same query, to the same path on another host (paginated APIs and
+// feeds do all of that). Only a reference that IS the document's URL may be left out; the others are URLs of
+// their own, all with a file extension: due as assets.
+type selfSpace struct{ dims []dim }
+
+func newSelfSpace() *selfSpace {
+	return &selfSpace{dims: []dim{
+		{Name: "doc", Vals: []string{"json", "xml", "rss"}},
+		{Name: "address", Vals: []string{"with-query", "without-query", "with-two-parameters"}},
+		{Name: "reference", Vals: []string{"self-other-query-value", "self-without-query", "self-one-more-parameter", "self-other-parameter", "sibling-file-same-query", "other-host-same-path-and-query", "self-upper-case-path"}},
+		{Name: "hops", Vals: hopNames[:3]},
+	}}
+}
+
+func (s *selfSpace) Name() string { return "self-reference" }
+func (s *selfSpace) Kind() string { return "self" }
+func (s *selfSpace) Dims() []dim  { return s.dims }
+
+func (s *selfSpace) parts(d []int) (addr, ref string) {
+	file := []string{"list.json", "feed.xml", "feed.xml"}[d[0]]
+	q := []string{"?page=1", "", "?page=1&per_page=50"}[d[1]]
+	base := "https://origin.example/video/"
+	addr = base + file + q
+	switch d[2] {
+	case 0:
+		ref = base + file + "?page=2"
+		if d[1] == 2 {
+			ref = base + file + "?page=2&per_page=50"
+		}
+	case 1:
+		ref = base + file
+	case 2:
+		if q == "" {
+			ref = base + file + "?format=full"
+		} else {
+			ref = addr + "&format=full"
+		}
+	case 3:
+		ref = base + file + "?id=7"
+	case 4:
+		ref = base + "other-" + file + q
+	case 5:
+		ref = "https://mirror.example/video/" + file + q
+	case 6:
+		ref = base + strings.ToUpper(file[:1]) + file[1:] + q
+	}
+	return
+}
+
+func (s *selfSpace) Valid(d []int) bool {
+	addr, ref := s.parts(d)
+	return addr != ref
+}
+
+func (s *selfSpace) Build(d []int) *Case {
+	if !s.Valid(d) {
+		return nil
+	}
+	addr, ref := s.parts(d)
+	hc := hopCfg[d[3]]
+	p := Planted{Ref: ref, Abs: ref, Ext: true, Class: s.dims[2].Vals[d[2]]}
+	var kind, ctype, body string
+	switch d[0] {
+	case 0:
+		kind, ctype = "json", "application/json"
+		body = `{"title": "catalogue", "next": "` + ref + `", "count": 3}`
+	case 1:
+		kind, ctype = "xml", "application/xml"
+		body = `<?xml version="1.0" encoding="UTF-8"?><catalog><entry><title>t</title><link>` + xmlEsc.Replace(ref) + `</link></entry></catalog>`
+	case 2:
+		kind, ctype = "rss", "application/rss+xml"
+		body = `<?xml version="1.0" encoding="UTF-8"?><rss version="2.0"><channel><item><title>t</title><link>` + xmlEsc.Replace(ref) + `</link></item></channel></rss>`
+	}
+	return &Case{Kind: kind, URL: addr, CType: ctype, Body: body, Hops: hc[0], MaxHops: hc[1], DC: hc[2] == 1, DAC: hc[3] == 1, Planted: []Planted{p}}
+}
+
 // ---------------------------------------------------------------- M3U8
 
 var m3uForms = []string{"https://cdn.example/hls/%s", "%s", "sub/%s", "/abs/%s", "%s?tok=a.b&x=1"}
